@@ -616,4 +616,40 @@ def pfFirewallCommand (L : PfLayout) (kernel : Bytes → Nat → NatlookRes) (li
     | _ => .typeError
   else .notMine
 
+/-! ## The helper's line channel during a session (firewall.py main loop, pf)
+
+After `STARTED` the client writes `HOST name,ip` lines (auto-hosts) and `QUERY_PF_NAT …`
+lines on one channel, and reads one line per query.  The helper handles the lines in order:
+a `HOST` line rewrites the hosts file and writes **nothing** back (an exception from the rewrite
+leaves the loop: the helper undoes its changes and exits); a query line writes exactly one reply. -/
+
+structure Sess where
+  pending : List Bytes := []   -- lines written by the helper, not yet read by the client
+  alive   : Bool := true       -- the helper is still in its command loop
+deriving Repr, DecidableEq
+
+inductive SOp
+  | host (rewriteFails : Bool)        -- `fw.sethostip(…)`
+  | query (reply : Bytes)             -- `get_tcp_dstip`: request, then `pfile.readline()`;
+                                      -- `reply` is what `firewall_command` prints for it
+deriving Repr
+
+/-- What `pfile.readline()` gave `get_tcp_dstip`. -/
+inductive ReadLine
+  | line (l : Bytes)
+  | eof                               -- `b''`: falls back to `getsockname()`
+deriving Repr, DecidableEq
+
+def sessStep (s : Sess) : SOp → Sess × Option ReadLine
+  | .host fails => if s.alive then ({ s with alive := !fails }, none) else (s, none)
+  | .query reply =>
+    let pend := if s.alive then s.pending ++ [reply] else s.pending
+    match pend with
+    | l :: r => ({ s with pending := r }, some (.line l))
+    | [] => (s, some .eof)
+
+def sessRun : Sess → List SOp → List (Option ReadLine)
+  | _, [] => []
+  | s, op :: ops => (sessStep s op).2 :: sessRun (sessStep s op).1 ops
+
 end Sshuttle.Dst
